@@ -467,7 +467,7 @@ c.exit_check(_deferred_exit)
 
 
 # ---------------------------------------------------------------- DeferredSnapshotActionCallback.process (C15)
-c = contract(SA, "DeferredSnapshotActionCallback.process", ["C15", "C09"])
+c = contract(SA, "DeferredSnapshotActionCallback.process", ["C15", "C09", "C07"])
 c.param("self", OBJ("DeferredSnapshotActionCallback", inv=False)).param("ctx", OBJ("TriggerContext"))
 c.param("event", STR).param("frame", FRAME()).param("arg", ANY)
 c.req("callback-holds-its-action-context-and-snapshot", lambda S_: And(
